@@ -24,7 +24,8 @@ Section SHA2.
   Let w := wbits p.
   Let wbytes : nat := N.to_nat (w / 8).
   Let block_len : nat := (16 * wbytes)%nat.
-  Let modw (x : N) := x mod 2 ^ w.
+  Let maskw : N := N.ones w.
+  Let modw (x : N) := N.land x maskw.   (* x mod 2^w *)
   Definition rotr (n x : N) : N := N.lor (N.shiftr x n) (modw (N.shiftl x (w - n))).
   Definition addw (x y : N) : N := modw (x + y).
   Definition S3 (r : N * N * N) (x : N) : N :=
